@@ -67,6 +67,7 @@ func RunElection(w *World, idx int) {
 		pre := w.C.VerifState()
 		w.Fac.mu.Lock()
 		nsig := len(w.Fac.Signals)
+		nalive := len(w.Fac.Alive)
 		w.Fac.mu.Unlock()
 		f.mu.Lock()
 		alive := f.Alive
@@ -80,11 +81,23 @@ func RunElection(w *World, idx int) {
 		post := w.C.VerifState()
 		w.Fac.mu.Lock()
 		sigs := append([]Signal(nil), w.Fac.Signals[nsig:]...)
+		probed := append([]string(nil), w.Fac.Alive[nalive:]...)
 		w.Fac.mu.Unlock()
 		// competitors known to the controller when it decided
 		known := map[string]bool{f.IP: true}
 		for ip := range pre.Registered {
 			known[ip] = true
+		}
+		// a replica the controller itself just found unreachable no longer counts as registered
+		for _, ip := range probed {
+			if c := w.Fakes["tcp://"+ip+":9502"]; c != nil && ip != f.IP {
+				c.mu.Lock()
+				dead := !c.Alive
+				c.mu.Unlock()
+				if dead {
+					delete(known, ip)
+				}
+			}
 		}
 		for _, s := range sigs {
 			if s.Action != "start" {
